@@ -178,7 +178,11 @@ pub fn render(s: &TypeSpec) -> Option<Rendered> {
 }
 
 pub fn run(ctx: &Ctx) -> i32 {
-    let b = Behaviour {
+    crate::props::behave::run(ctx, &behaviour())
+}
+
+pub fn behaviour() -> Behaviour {
+    Behaviour {
         prop: "C06",
         rule: "structs and enums with Debug educed: type-level name (default/false/custom, Debug = X shorthand), enum name = true, variant name, \
                named_field both ways on structs and variants, field ignore/name/rename/method, generic types; ordinary identifiers only; every value is \
@@ -193,6 +197,5 @@ pub fn run(ctx: &Ctx) -> i32 {
         thorough: 10000,
         batch: 25,
         assumptions: &["the statement's std-equivalence clause is limited to ordinary identifiers, so raw identifiers are left to C01"],
-    };
-    crate::props::behave::run(ctx, &b)
+    }
 }
